@@ -293,9 +293,15 @@ class Check:
                 rep["model_skipped"] = "zmodel did not build"
             else:
                 t = time.time()
-                with open(cases_p) as fi, open(model_p, "w") as fo:
-                    p = subprocess.run([ZMODEL], stdin=fi, stdout=fo, stderr=subprocess.PIPE, timeout=3000)
+                rcm, errm = run_model_parallel(cases_p, model_p, 3000 if self.tier == "thorough" else 1200)
                 rep["model_s"] = round(time.time() - t, 2)
+
+                class _P:
+                    pass
+
+                p = _P()
+                p.returncode = rcm
+                p.stderr = errm.encode()
                 if p.returncode != 0:
                     self.oblige(f"model driver runs engine {name}", False, p.stderr.decode(errors="replace")[-400:])
                 else:
@@ -519,6 +525,79 @@ class Check:
             hook(self)
         self.collect()
         return self.finish()
+
+
+def run_model_parallel(cases_p, model_p, timeout):
+    """Run zmodel on the request file, split at scenario starts (`<engine> new …` lines; stateless requests can be
+    split anywhere) into up to 14 chunks that run concurrently; outputs are concatenated in order."""
+    size = os.path.getsize(cases_p)
+    with open(cases_p) as f:
+        lines = f.readlines()
+    n = len(lines)
+    k = 1 if size < 300_000 or n < 16 else min(14, os.cpu_count() or 4)
+    if k > 1:
+        news = [i for i, l in enumerate(lines) if l.split(" ", 2)[1:2] == ["new"] or l.split(" ", 2)[1:2] == ["new\n"]]
+        # allowed split points: scenario starts; and any line of an engine that never says `new` provided no stateful
+        # scenario is open (conservative: only split before a `new` line, or anywhere if there is no `new` at all)
+        if news:
+            points = news
+        else:
+            points = list(range(0, n, max(1, n // (k * 4))))
+        # choose k chunks of roughly equal byte size
+        sizes = [len(l) for l in lines]
+        total = sum(sizes)
+        target = total / k
+        cuts = [0]
+        acc = 0
+        pi = 0
+        pts = [p for p in points if p > 0]
+        cum = 0
+        cumsum = []
+        for sz in sizes:
+            cumsum.append(cum)
+            cum += sz
+        for p_ in pts:
+            if cumsum[p_] - cumsum[cuts[-1]] >= target and len(cuts) < k:
+                cuts.append(p_)
+        cuts.append(n)
+    else:
+        cuts = [0, n]
+    procs = []
+    tmpfiles = []
+    for ci in range(len(cuts) - 1):
+        a, b = cuts[ci], cuts[ci + 1]
+        cp = f"{cases_p}.part{ci}"
+        mp = f"{model_p}.part{ci}"
+        with open(cp, "w") as f:
+            f.writelines(lines[a:b])
+        fi = open(cp)
+        fo = open(mp, "w")
+        procs.append((subprocess.Popen([ZMODEL], stdin=fi, stdout=fo, stderr=subprocess.PIPE), fi, fo))
+        tmpfiles.append((cp, mp))
+    rc = 0
+    err = ""
+    t_end = time.time() + timeout
+    for pr, fi, fo in procs:
+        try:
+            _, e = pr.communicate(timeout=max(1, t_end - time.time()))
+        except subprocess.TimeoutExpired:
+            pr.kill()
+            e = b"model driver timed out"
+            rc = 124
+        fi.close()
+        fo.close()
+        if pr.returncode not in (0, None) and rc == 0:
+            rc = pr.returncode
+            err = (e or b"").decode(errors="replace")[-400:]
+        elif rc == 124:
+            err = "model driver timed out"
+    with open(model_p, "w") as out:
+        for cp, mp in tmpfiles:
+            with open(mp) as f:
+                shutil.copyfileobj(f, out)
+            os.remove(cp)
+            os.remove(mp)
+    return rc, err
 
 
 def diff_streams(cases_p, impl_p, model_p, limit=50):
